@@ -688,7 +688,12 @@ func main() {
 				}
 				// corrupted tokens derived from every real token seen for this collection
 				ntok := 0
+				var toks []string
 				for tok := range tokens {
+					toks = append(toks, tok)
+				}
+				sort.Strings(toks) // (a fixed choice: the quick tier takes the first three)
+				for _, tok := range toks {
 					if ntok++; ntok > 3 && !s.Thorough {
 						break
 					}
